@@ -1,2 +1,2 @@
 # properties served by engine T (volumes per tier live in orch/props*.go)
-PLAN_T = {p: True for p in ["C01", "C02", "C03", "C04", "C05", "C06", "C07", "C11", "C12", "C13", "C14", "C15", "C16", "C17", "C18"]}
+PLAN_T = {p: True for p in ["C01", "C02", "C03", "C04", "C05", "C06", "C07", "C10", "C11", "C12", "C13", "C14", "C15", "C16", "C17", "C18"]}
